@@ -165,7 +165,7 @@ def _sites(prog):
 
 @matcher("c09_dstar")
 def _c09_dstar(clause, replay, ctx):
-    return (clause == "C09:placement_accepted" and any(c["dstar"] for c in _sites(ctx["prog"]))
+    return (clause == "C09:placement_accepted" and any(c["dstar"] and c["site"] == "N" for c in _sites(ctx["prog"]))
             and "No method" in ctx["reg"]["built"])
 
 
